@@ -55,11 +55,11 @@ class Mat:
 
 def inv3(M):
     d = det3(M)
-    return Mat([[K.rdiv(adj3(M, i, j), d) for j in range(3)] for i in range(3)])
+    return Mat([[K.block(K.rdiv(adj3(M, i, j), d)) for j in range(3)] for i in range(3)])
 
 
 def matmul3(A, B):
-    return Mat([[sum(A[i][l] * B[l][j] for l in range(3)) for j in range(3)] for i in range(3)])
+    return Mat([[K.block(sum(A[i][l] * B[l][j] for l in range(3))) for j in range(3)] for i in range(3)])
 
 
 K.register_spec(hkl=hkl, dspec=dspec, ihkl=ihkl, det3=det3, adj3=adj3, inv3=inv3, matmul3=matmul3, Mat=Mat)
